@@ -148,6 +148,7 @@ class C06Monitor:
         self.reversed = False
         self.peak = {}
         self.hist = {}
+        self.rot = {}
 
     def v(self, clause, i, m, detail):
         self.verdicts.append({"property": PROPERTY, "clause": clause, "op": i, "m": m,
@@ -205,6 +206,7 @@ class C06Monitor:
                    {"rel": rel, "bound": b, "strain": eps, "family": flow.family,
                     "reversed_interval": bool(op["t1"] < op["t0"]),
                     "atol_estimate_over_bound": est / b,
+                    "rigid_rotation_call_rad": world.rotation_over(flow, path, op["t0"], op["t1"]),
                     "solver_steps": rec["steps"], "L_nonzero_seen": rec.get("L_nonzero_seen"),
                     "F_out": F_out.tolist(), "F_ref": Fref.tolist()})
         # determinant: det F_out = det F_in * exp(int tr L)
@@ -235,10 +237,12 @@ class C06Monitor:
         hist.append(newref.copy())
         est_chain = 1e-4 * amp / max(float(np.abs(newref).max()), 1e-300)
         pk = max(self.peak.get(lead, 0.0), est / b, est_chain / call_bound(N, st))
+        rot_total = self.rot.get(lead, 0.0) + world.rotation_over(flow, path, op["t0"], op["t1"])
         for m in ms:
             self.cum[m] = [newref.copy(), N, st]
             self.peak[m] = pk
             self.hist[m] = hist
+            self.rot[m] = rot_total
         relc = float(np.abs(F_out - newref).max() / np.abs(newref).max())
         bc = call_bound(N, st)
         self.mx("cumulative_rel_over_bound" + (".compact_support" if self.compact else
@@ -249,7 +253,8 @@ class C06Monitor:
                                            "family": flow.family, "solver_steps": rec["steps"],
                                            "compact_support_in_history": self.compact,
                                            "reversed_interval_in_history": self.reversed,
-                                           "atol_estimate_over_bound": pk})
+                                           "atol_estimate_over_bound": pk,
+                                           "rigid_rotation_total_rad": rot_total})
 
 
 def _merged_ops(scn):
